@@ -372,6 +372,8 @@ SWALLOW_ALLOWED = {
     # (function, sink): why no rejection is lost there
     ('semantic::semantic_state::SemanticState::add_file', 'Result::unwrap_or'):
         'strip_prefix(base).unwrap_or(path): a path outside the base directory keeps its full path; no description error is involved',
+    ('backends::rust::write_module', 'match-arm(Err)'):
+        'the Err of syn::parse_file: the unformatted text is still written and the error is returned afterwards (decided by C13-D1|parse-gate)',
     ('build', 'filter_map(Result::ok)'):
         'glob entries that cannot be read are skipped by lib.rs::build (directory-walk errors, not description errors)',
 }
@@ -442,6 +444,42 @@ def swallowed_errors(ctx):
                        ('an Err is dropped by %s: %s' % (sk, why)) if why else
                        'an Err is dropped by %s in %s: whatever the failing step would have rejected is accepted (or silently left out)' % (sk, f.id), loc(t['span']),
                        nontrivial=why is None)
+    # the same by hand: `match r { Ok(v) => .., Err(_) => <carry on / return Ok> }`, `if let Ok(v) = r { .. }`, `let Ok(v) = r else { return Ok(..) }`:
+    # an arm taken for Err from which the function can still finish without an error
+    seen_scr = set()
+    for f in P.fns.values():
+        if f.raw.get('derived') or f.raw.get('is_test'):
+            continue
+        base = re.sub(r'(::\{closure#\d+\})+$', '', f.id)
+        for s_ in f.switches():
+            c_ = s_['cond']
+            if c_[0] != 'discr' or not (set(c_[2]) >= {'Ok', 'Err'}) or len(c_[2]) != 2:
+                continue
+            for lab, tgt in s_['edges']:
+                if lab == 'Ok':
+                    continue
+                ks = f.exit_kinds_from(tgt)
+                if ks <= {'err_own', 'err_prop', 'diverge', 'panic'}:
+                    continue
+                scr = strip(c_[1])
+                if (f.id, repr(scr)) in seen_scr:
+                    continue            # the same scrutinee tested again (drop flags, nested patterns)
+                seen_scr.add((f.id, repr(scr)))
+                n += 1
+                sk = 'match-arm(Err)'
+                if scr[0] == 'payload' and scr[2] == 'Some' and is_call(strip(scr[1]), 'Iterator::next') and find_calls(scr, 'glob::glob') and \
+                        not [x for x in walk(scr) if isinstance(x, tuple) and x and x[0] == 'call' and x[1] in P.fns]:
+                    # `for entry in glob(..)? { let Ok(path) = entry else { continue }; .. }` is `.filter_map(Result::ok)` written by hand
+                    sk = 'filter_map(Result::ok)'
+                why = SWALLOW_ALLOWED.get((base, sk))
+                k = 'swallowed|%s|%s' % (re.sub(r'\{closure#\d+\}', '{closure}', f.id), sk)
+                seen[k] = seen.get(k, 0) + 1
+                if seen[k] > 1:
+                    k += '#%d' % seen[k]
+                ctx.ob(_swallow_props(f.id), 'R-ERR', k, why is not None,
+                       ('the Err arm of a match on %s does not end in an error: %s' % (show(strip(c_[1]))[:50], why)) if why else
+                       'the Err arm of a match on %s in %s can finish without an error (%s): whatever the failing step would have rejected is accepted' % (show(strip(c_[1]))[:50], f.id, sorted(ks)),
+                       loc(s_.get('span') or f.span), nontrivial=why is None)
     # the expected count is small (possibly zero after a refactoring): the matchers are tested on the spellings they must recognise
     selftest = bool(SWALLOW_SINK.search('std::result::Result::<T, E>::ok')) and bool(SWALLOW_SINK.search('std::result::Result::<T, E>::unwrap_or')) and \
         bool(SWALLOW_ADAPTER.search('std::iter::Iterator::flat_map')) and not SWALLOW_SINK.search('std::option::Option::<T>::ok_or')
